@@ -94,7 +94,13 @@ Definition proceed (gt : gating) (g : N) (snaps : list N) : gating :=
 Definition reset (gt : gating) (s : N) : gating :=
   fun s' g => if (s' =? s)%N && negb (g =? system)%N then None else gt s' g.
 
+(* what a gate-auto-refresh hook does through snapctl: `snapctl refresh --hold` / `snapctl refresh --proceed` *)
+Inductive hookcmd := CmdHold | CmdProceed.
+
 Inductive op :=
+| Hook (g : N) (snaps : list N) (script : list hookcmd) (fails : bool)
+    (* one run of the gate-auto-refresh hook of gating snap g, whose affecting snaps are snaps: the snapctl commands it
+       issues and whether it exits non-zero. It is not a primitive operation: see hook_ops / hstep below. *)
 | Hold (level g : N) (dur : Z) (snaps : list N)          (* HoldRefresh(st, level, g, dur, snaps...) *)
 | SysHold (level : N) (t : option Z) (snaps : list N)    (* HoldRefreshesBySystem(st, level, forever | t, snaps) *)
 | Proceed (g : N) (snaps : list N)                       (* ProceedWithRefresh(st, g, snaps) *)
@@ -126,9 +132,32 @@ Definition step (st : state) (o : op) : state :=
   | RefreshRefused _ done => mkState (fold_left reset done (st_gating st)) (st_lastref st) (st_now st)
   | Refreshed s => mkState (st_gating st) (fun x => if (x =? s)%N then st_now st else st_lastref st x) (st_now st)
   | Tick d => mkState (st_gating st) (st_lastref st) (st_now st + Z.of_N d)
+  | Hook _ _ _ _ => st      (* not primitive: histories with hooks are run with hstep / hrun *)
   end.
 
 Definition run (st : state) (ops : list op) : state := fold_left step ops st.
+
+(* ------------------------------------------------------------------ the gate-auto-refresh hook
+   overlord/hookstate/ctlcmd/refresh.go: `refresh --hold` caches action=hold in the hook context and THEN calls
+   HoldRefresh(st, HoldAutoRefresh, g, 0, affecting...) (so the action is recorded whether or not the hold is granted);
+   `refresh --proceed` only caches action=proceed. overlord/hookstate/hooks.go gateAutoRefreshHookHandler: Done (hook
+   exited 0): no action or proceed -> ProceedWithRefresh(g, nil); hold -> nothing. Error (hook failed): action hold ->
+   nothing; otherwise HoldRefresh with the default duration (a HoldError is logged and ignored).
+   The cached action does not depend on the state, so a hook run is a fixed list of primitive operations. *)
+Definition last_action (script : list hookcmd) : option hookcmd := last (map Some script) None.
+Definition hook_ops (g : N) (snaps : list N) (script : list hookcmd) (fails : bool) : list op :=
+  flat_map (fun c => match c with CmdHold => [Hold 0 g 0 snaps] | CmdProceed => [] end) script
+  ++ match last_action script, fails with
+     | Some CmdHold, _ => []
+     | _, true => [Hold 0 g 0 snaps]
+     | _, false => [Proceed g []]
+     end.
+Definition expand (o : op) : list op :=
+  match o with Hook g snaps script fails => hook_ops g snaps script fails | _ => [o] end.
+Definition expand_all (ops : list op) : list op := flat_map expand ops.
+(* the step of histories that contain hook runs *)
+Definition hstep (st : state) (o : op) : state := run st (expand o).
+Definition hrun (st : state) (ops : list op) : state := fold_left hstep ops st.
 
 (* HeldSnaps(st, level): is the hold of g on s reported at the current time *)
 Definition effective (st : state) (level s g : N) : bool :=
@@ -260,7 +289,7 @@ Fixpoint mismatch_steps (n : N) (st : state) (steps : list obs) : bool :=
   | [] => false
   | o :: r =>
       let res := op_result st (o_op o) in
-      let st' := step st (o_op o) in
+      let st' := hstep st (o_op o) in
       if obs_agrees n st' res o then mismatch_steps n st' r else true
   end.
 
@@ -291,6 +320,8 @@ Definition may_remove (o : op) (res : option Z) (s g : N) : bool :=
   | Reset s' => (s' =? s)%N && negb (g =? system)%N
   | RefreshAccepted snaps => mem s snaps && negb (g =? system)%N
   | Hold _ g' _ snaps => (g' =? g)%N && mem s snaps && (match res with None => true | Some _ => false end)
+  | Hook g' _ _ _ => (g' =? g)%N     (* a refused hold of the hook, or its proceed; but a record that is there before and
+                                        after the hook run keeps its episode: a hook run never restarts one *)
   | _ => false
   end.
 
